@@ -961,19 +961,19 @@ Proof.
   apply wp_ret. apply HQ; [apply Hlog, Hlog, HP | reflexivity | reflexivity].
 Qed.
 
-Lemma wp_infidelity : forall g pw ci (Q : tag * how -> lst -> Prop) l,
+Lemma wp_infidelity : forall g pw tl ci (Q : tag * how -> lst -> Prop) l,
   (pw = Correlations -> allowed E_value /\ allowed E_calc) -> LC l -> computed_post g Q ->
-  wp (infidelity fixed g pw ci) Q EA l.
+  wp (infidelity fixed g pw tl ci) Q EA l.
 Proof.
-  intros g pw ci Q l Hal H HQ. unfold infidelity. destruct pw.
+  intros g pw tl ci Q l Hal H HQ. unfold infidelity. destruct pw.
   - apply wp_bind. apply wp_get_ff; [exact H | ]. intros [t h] l1 H1 Et _. simpl in Et. subst t. cbv beta.
     apply wp_bind. apply wp_get_cm; [eapply LCO_LC, H1 | ]. intros [t2 h2] l2 H2 Et2 _. simpl in Et2. subst t2. cbn [fst].
     apply (wp_integrate2 g (LCO g)); [apply logstable_LCO | exact H2 | exact HQ].
   - destruct (Hal eq_refl) as [Hv Hc]. wnext. unfold omega_equal. apply wp_bind. wnext. apply wp_ret.
     assert (Hrest : forall (r : tag * how) l' h, LCO g l' -> r = (TF g, h) ->
               wp (c2 <- is_cached S_control_matrix_pc;;
-                  (if c2 then r2 <- get_pccm;; integrate2 g (fst r) (fst r2) else integrate g (fst r))) Q EA l').
-    { intros r l' h H' ->. cbn [fst]. wnext. destruct (sl l' S_control_matrix_pc) eqn:Ec.
+                  (if c2 || negb tl then r2 <- get_pccm;; integrate2 g (fst r) (fst r2) else integrate g (fst r))) Q EA l').
+    { intros r l' h H' ->. cbn [fst]. wnext. destruct (_ || negb tl) eqn:Ec.
       - apply wp_bind. apply wp_get_pccm; [exact Hc | eapply LCO_LC, H' | ]. intros [t2 h2] l2 g0 H2 Ho2 Et2 _. cbv beta.
         simpl in Et2. subst t2. rewrite (LCO_omega g l' H') in Ho2. injection Ho2 as <-. cbn [fst].
         apply (wp_integrate2 g (LCO g)); [apply logstable_LCO | exact H2 | exact HQ].
@@ -1216,7 +1216,7 @@ Inductive grid_getter : op -> grid -> Prop :=
 | gg_ff g w o ci : grid_getter (GetFF g w o ci) g
 | gg_deriv g : grid_getter (GetDeriv g) g
 | gg_phases g : grid_getter (GetPhases g) g
-| gg_infid g ci : grid_getter (Infidelity g Total ci) g
+| gg_infid g tl ci : grid_getter (Infidelity g Total tl ci) g
 | gg_decay g ci : grid_getter (DecayAmplitudes g Total ci) g
 | gg_cumulant g s cio : grid_getter (Cumulant g Total s cio) g
 | gg_etm g s ci : grid_getter (ErrorTransferMatrix g s ci) g
@@ -1257,7 +1257,7 @@ Qed.
 Inductive pc_getter : op -> option grid -> Prop :=
 | pg_cm : pc_getter GetPCCM None
 | pg_ff w : pc_getter (GetPCFF w) None
-| pg_infid g ci : pc_getter (Infidelity g Correlations ci) (Some g)
+| pg_infid g tl ci : pc_getter (Infidelity g Correlations tl ci) (Some g)
 | pg_decay g ci : pc_getter (DecayAmplitudes g Correlations ci) (Some g)
 | pg_cumulant g cio : pc_getter (Cumulant g Correlations false cio) (Some g).
 
@@ -1418,7 +1418,7 @@ Lemma ni_get_deriv : forall mc g, ni (get_deriv mc g).
 Proof. intros; unfold get_deriv; pose proof ni_get_cm; pose proof ni_lazy_prop; pose proof ni_t_prop; ni_auto. Qed.
 Lemma ni_integrate : forall g f, ni (integrate g f). Proof. intros; unfold integrate; ni_auto. Qed.
 Lemma ni_integrate2 : forall g f c, ni (integrate2 g f c). Proof. intros; unfold integrate2; ni_auto. Qed.
-Lemma ni_infidelity : forall mc g pw ci, ni (infidelity mc g pw ci).
+Lemma ni_infidelity : forall mc g pw tl ci, ni (infidelity mc g pw tl ci).
 Proof.
   intros; unfold infidelity; pose proof ni_get_ff; pose proof ni_get_cm; pose proof ni_integrate; pose proof ni_integrate2;
   pose proof ni_omega_equal; pose proof ni_get_pcff; pose proof ni_get_pccm; ni_auto.
